@@ -206,24 +206,75 @@ def r6_2(model: Model, rep: Report) -> None:
     if switched == 0:
         problems.append("no domain switch path found")
     (rep.refuted if problems else rep.proven)("R6.2", construct(f, "declared-experiment"), "; ".join(sorted(set(problems))), loc(f))
-    # call site in trso: activate(expression, subquery.active_interventions, domain) with (domain, subquery) one loop item
+    # call site in trso: every sub-result is activated with the domain and the active interventions of ITS OWN sub-query
     f = model.func(f"{T}.trso")
-    ok = False
-    for loop in [x for x in ast.walk(f.node) if isinstance(x, ast.For)]:
-        if isinstance(loop.target, ast.Tuple) and len(loop.target.elts) == 2 and all(isinstance(e, ast.Name) for e in loop.target.elts):
-            dn, sn = loop.target.elts[0].id, loop.target.elts[1].id
-            for c in ast.walk(loop):
-                if isinstance(c, ast.Call) and getattr(c.func, "id", "") == "activate_domain_and_interventions" and len(c.args) == 3:
-                    a1, a2 = c.args[1], c.args[2]
-                    if isinstance(a1, ast.Attribute) and isinstance(a1.value, ast.Name) and a1.value.id == sn and a1.attr == "active_interventions" and isinstance(a2, ast.Name) and a2.id == dn:
-                        ok = "items" in ast.unparse(loop.iter) and "trso_line6" in ast.unparse(loop.iter)
-    (rep.proven if ok else rep.refuted)("R6.2", construct(f, "activation-call-site"), "" if ok else
-                                        "a sub-result is not activated with the domain and active interventions of its own sub-query", loc(f))
-    # identify_target_outcomes: initial expression is the target joint
+    paths = _trso_paths(model)
+    acts = []
+    for p in paths:
+        for s_ in subterms((p.value, p.conds)):
+            if s_[0] == "accum" and any(x[0] == "call" and str(x[1]).endswith("activate_domain_and_interventions") for x in subterms(s_[3])):
+                acts.append(s_)
+    problems = []
+    if not acts:
+        problems.append("no activation of sub-results found in the line-6 branch")
+    for a_ in acts:
+        gens = a_[4]
+        call = [x for x in subterms(a_[3]) if x[0] == "call" and str(x[1]).endswith("activate_domain_and_interventions")][0]
+        kw = kwargs_of(call)
+        pat = gens[0][0]
+        if not (pat[0] == "tuplelit" and len(pat[1]) == 2):
+            problems.append("sub-results are not iterated as (domain, sub-query) items")
+            continue
+        dvar, svar = pat[1]
+        src = gens[0][1]
+        if not (src[0] == "meth" and src[2] == "items" and src[1][0] == "call" and str(src[1][1]).endswith("trso_line6")):
+            problems.append("the activated sub-queries are not the items of line 6's table")
+        if kw.get("domain") != dvar:
+            problems.append("a sub-result is tagged with a domain other than the one its sub-query was built for")
+        if kw.get("interventions") != ("attr", svar, "active_interventions"):
+            problems.append("a sub-result is not activated with the active interventions of its own sub-query")
+        ex = kw.get("expression")
+        if not (ex is not None and ex[0] == "recurse" and ex[2] == (svar,)):
+            problems.append("the activated expression is not TRSO of that sub-query")
+    (rep.refuted if problems else rep.proven)("R6.2", construct(f, "activation-call-site"), "; ".join(sorted(set(problems))), loc(f))
+    # identify_target_outcomes: the recursion starts from the target domain's observational joint over the graph's nodes
     f = model.func(f"{T}.identify_target_outcomes")
-    src = ast.unparse(f.node)
-    ok = "PopulationProbability(population=TARGET_DOMAIN" in src.replace("\n", "").replace("  ", "")
-    (rep.proven if ok else rep.refuted)("R6.2", construct(f, "initial-distribution"), "" if ok else "the recursion does not start from the target domain's observational joint", loc(f))
+    ev = Evaluator(model, primitives=set(TPRIMS) | {f"{T}.trso", f"{T}.surrogate_to_transport", f"{T}.check_and_raise_missing", f"{T}.TRSOQuery"}, prim_methods=set(TPM))
+    g = graph_var(ev, "graph")
+    args = {"graph": g, "target_outcomes": varset(ev, "target_outcomes"), "target_interventions": varset(ev, "target_interventions"),
+            "surrogate_outcomes": typed(ev, "surrogate_outcomes", ("dict", None, None)), "surrogate_interventions": typed(ev, "surrogate_interventions", ("dict", None, None))}
+    rets = return_paths(ev.run(f, args))
+    problems = []
+    if len(rets) != 1 or not (rets[0].value[0] == "call" and str(rets[0].value[1]).endswith(".trso")):
+        problems.append("the wrapper does not return trso(query)")
+    else:
+        q0 = kwargs_of(rets[0].value).get("query")
+        kw = kwargs_of(q0) if q0 is not None else {}
+        ex = kw.get("expression")
+        fl = dict(ex[2]) if ex is not None and ex[0] == "rec" else (kwargs_of(ex) if ex is not None else {})
+        tgt = fl.get("population")
+        if not (ex is not None and str(ex[1]).endswith("PopulationProbability") and tgt is not None and tgt[0] == "global" and str(tgt[1]).endswith("TARGET_DOMAIN")):
+            problems.append("the recursion does not start from the target domain's observational joint")
+        elif kw.get("domain") != tgt:
+            problems.append("the initial expression's population tag is not the query's initial domain")
+        else:
+            d = fl.get("distribution")
+            sa0 = SetAlg(rewrite=rewriter(graph_rewrite))
+            nodes = kwargs_of(d).get("distribution") if d is not None and d[0] == "call" else None
+            n0 = var("%n")
+            if nodes is None or kwargs_of(d).get("interventions") not in (None, const(None)) or not compare(sa0.member(n0, nodes), sa0.member(n0, ("V", g)))[0]:
+                problems.append("the initial distribution is not the plain joint over the nodes of the target graph")
+        if kw.get("active_interventions") not in (("empty",), ("setlit", ())):
+            problems.append("the recursion starts with active interventions")
+    (rep.refuted if problems else rep.proven)("R6.2", construct(f, "initial-distribution"), "; ".join(problems), loc(f))
+
+
+def _trso_paths(model: Model):
+    from .c05 import LINES
+    prims = set(TPRIMS) | {f"{T}.{x}" for x in LINES}
+    ev = Evaluator(model, primitives=prims, prim_methods=set(TPM))
+    q = typed(ev, "query", ("cls", f"{T}.TRSOQuery"))
+    return ev.run(model.func(f"{T}.trso"), {"query": q})
 
 
 def _regular_rewrite(t: Term):
@@ -307,13 +358,18 @@ def r6_3(model: Model, rep: Report) -> None:
             if s[0] == "call" and str(s[1]).endswith("Sum.safe") and not done:
                 done = True
                 check_sink("R6.3", f, "no-transport-node:range", kwargs_of(s).get("ranges"))
-    # line 4's outer sum in trso (AST: the range expression of the Sum.safe after the product)
+    # line 4's outer sum in trso: the summation range of the path that multiplies the per-district sub-results
     f = model.func(f"{T}.trso")
-    ok = False
-    for c in ast.walk(f.node):
-        if isinstance(c, ast.Call) and ast.unparse(c.func) == "Sum.safe" and len(c.args) == 2 and "summand" in ast.unparse(c.args[0]):
-            ok = ast.unparse(c.args[1]).startswith("get_regular_nodes(graph) -")
-    (rep.proven if ok else rep.refuted)("R6.3", construct(f, "no-transport-node:line4-range"), "" if ok else "line 4 sums over nodes not restricted to regular nodes", loc(f))
+    found = False
+    for p in _trso_paths(model):
+        if p.kind != "return" or not any(s_[0] == "call" and str(s_[1]).endswith("trso_line4") for s_ in subterms(p.value)):
+            continue
+        for s_ in subterms(p.value):
+            if s_[0] == "call" and str(s_[1]).endswith("Sum.safe") and not found:
+                found = True
+                check_sink("R6.3", f, "no-transport-node:line4-range", kwargs_of(s_).get("ranges"))
+    if not found:
+        rep.error("R6.3: line 4's summation not found among the paths of trso")
 
 
 def r6_4(model: Model, rep: Report) -> None:
